@@ -46,7 +46,7 @@ chunks.__class__.size = 2048 # Samples
 
 
 @chunks.strategy("struct")
-def chunks(seq, size=None, dfmt="f", byte_order=None, padval=0.):
+def chunks(seq, size=None, dfmt="f", byte_order=None, padval=0):
   """
   Chunk generator based on the struct module (Python standard library).
 
@@ -91,7 +91,7 @@ def chunks(seq, size=None, dfmt="f", byte_order=None, padval=0.):
 
 
 @chunks.strategy("array")
-def chunks(seq, size=None, dfmt="f", byte_order=None, padval=0.):
+def chunks(seq, size=None, dfmt="f", byte_order=None, padval=0):
   """
   Chunk generator based on the array module (Python standard library).
 
